@@ -80,6 +80,24 @@ def rule_ranking(ctx: Ctx) -> None:
                   fi=fi, expected="key=lambda x: x.estimated_object.semantic_score, reverse=True", found=f"key={kt or (S(key) if key is not None else None)}, reverse={S(rev) if rev is not None else None}",
                   sample={"key": kt, "reverse": S(rev) if rev is not None else None})
         # the ranked list is what was collected from the input (flat or nested): every frame's list, each result once
+        cdp = {S(c[0]): c[1] for c in p.conds if isinstance(c, tuple)}
+        nonempty, first_is_list = cdp.get("truthy:object_results"), cdp.get("isinstance:object_results[0],list")
+        lps_all = [e for i, e in enumerate(p.effects) if i < ti and e.kind == "loop"]
+        last_asg = [S(e.value) for i, e in enumerate(p.effects) if i < ti and e.kind == "assign" and e.recv == rname and not S(e.value).startswith("sorted(")]
+        if nonempty is not None and (nonempty is False or first_is_list is not None):
+            is_nested = bool(nonempty and first_is_list)
+            if is_nested:
+                okc = len(lps_all) == 1 and S(lps_all[0].text) == "object_results" and last_asg[-1:] in (["[]"], ["list()"])
+                var = U(lps_all[0].node.target) if lps_all and isinstance(lps_all[0].node.target, ast.Name) else "?"
+                okc = okc and all([(x.kind, strip_v(x.recv), x.name, S(x.value)) for x in bp.effects if x.kind in ("aug", "assign", "store")] == [("aug", rname, "Add", var)] and not bp.conds and bp.exit == ("fall",)
+                                  for bp in lps_all[0].body)
+                ctx.check(okc, "C04-ranking", "Ap.__init__", "collects:nested", f"nested (per-frame) input: the ranked list `{rname}` is not a fresh list to which every frame's list is added once, unconditionally", fi=fi,
+                          expected="all = []; for frame in object_results: all += frame", found=f"init {last_asg[-1:]}, loops {[S(e.text) for e in lps_all]}")
+            else:
+                ctx.check(not lps_all and last_asg[-1:] == ["object_results"], "C04-ranking", "Ap.__init__", f"collects:flat:{int(bool(nonempty))}",
+                          f"flat (or empty) input: the ranked list is `{last_asg[-1:]}` after {len(lps_all)} loop(s); expected the input list itself", fi=fi)
+        else:
+            ctx.check(False, "C04-ranking", "Ap.__init__", "collects:dispatch", f"flat / nested input is not told apart by `len(object_results) == 0 or not isinstance(object_results[0], list)` on [{p.cond_text()[:100]}]", fi=fi)
         if inst == "nested":
             lps = [e for i, e in enumerate(p.effects) if i < ti and e.kind == "loop"]
             if lps:
@@ -102,6 +120,13 @@ def rule_ranking(ctx: Ctx) -> None:
         st = [e for e in p.effects if e.kind == "store" and strip_v(e.recv) == "self.ap"]
         ctx.require(len(st) == 1, "Ap.__init__: self.ap is not assigned exactly once per path")
         has = fact_where(p, lambda k: k.startswith("cmp:0 < len("))
+        if has is None:
+            odd = [S(k) for k in p.facts if "len(all_object_results" in strip_v(S(k)) or "len(object_results" in strip_v(S(k))]
+            odd = [k for k in odd if k.startswith(("cmp:", "eq:"))]
+            if odd:
+                ctx.violate("C04-ranking", "Ap.__init__", "ap-guard", f"whether AP is defined is decided by `{odd[0][:80]}`; it must be `0 < len(results)` (AP is undefined exactly when the label has no result)", fi=fi,
+                            expected="0 < len(all_object_results)", found=odd[0][:100])
+                continue
         ctx.require(has is not None, "Ap.__init__: the `no results` test was not recognised")
         v = S(st[0].value)
         if has:
@@ -153,7 +178,44 @@ def rule_marking(ctx: Ctx) -> None:
         for c in [x for x in bp.effects if x.kind in ("call", "ccall") and x.name == "is_result_correct"]:
             mm = c.kwargs.get("matching_mode") or (c.args[0] if c.args else None)
             ctx.check(mm is not None and S(mm) == "self.matching_mode", "C04-marking", "Ap._calculate_tp_fp", "mode", f"correctness is judged in mode `{S(mm) if mm is not None else None}`", fi=fi)
+        for c in [x for x in bp.effects if x.kind in ("call", "ccall") and x.name == "is_result_correct"]:
+            th = c.kwargs.get("matching_threshold") or (c.args[1] if len(c.args) > 1 else None)
+            ctx.check(th is not None and S(th).startswith("get_label_threshold("), "C04-marking", "Ap._calculate_tp_fp", "threshold-passed",
+                      f"correctness is judged with matching_threshold={S(th) if th is not None else 'the default (None: label agreement only)'}; it must be the threshold looked up for the result's label", fi=fi)
     ctx.require(kinds == {"skip", "tp", "fp"}, f"Ap._calculate_tp_fp: path kinds {sorted(kinds)}")
+    # decision rows of the whole function: no results & no GT -> ([], []); no results & GT -> all-zero TP with growing FP (precision 0); results -> the marking loop over zero-initialised lists
+    rows = set()
+    for p in paths:
+        cd = {S(c[0]): c[1] for c in p.conds if isinstance(c, tuple)}
+        has = cd.get("truthy:object_results")
+        ctx.require(has is not None, "Ap._calculate_tp_fp: the `no results` test was not recognised")
+        looped = any(e.kind == "loop" for e in p.effects)
+        asg = [(e.recv, e.value) for e in p.effects if e.kind == "assign"]
+        if has:
+            rows.add("results")
+            ctx.check(looped, "C04-marking", "Ap._calculate_tp_fp", "results:marked", "with results present the function returns without marking them", fi=fi)
+            first = {}
+            for k, v in asg:
+                first.setdefault(k, v)
+            for name in ("tp_list", "fp_list"):
+                v = first.get(name)
+                ok = isinstance(v, ast.ListComp) and S(v.elt) in ("0.0", "0") and S(v.generators[0].iter) in ("range(self.objects_results_num)", "range(len(object_results))", "object_results")
+                ok = ok or (isinstance(v, ast.BinOp) and isinstance(v.op, ast.Mult) and S(v.left) in ("[0.0]", "[0]") and S(v.right) in ("self.objects_results_num", "len(object_results)"))
+                ctx.check(ok, "C04-marking", "Ap._calculate_tp_fp", f"zero-init:{name}", f"{name} starts as `{S(v)[:80] if v is not None else None}`; expected one 0.0 per ranked result (unmarked results count neither as TP nor FP)", fi=fi)
+            continue
+        ctx.check(not looped, "C04-marking", "Ap._calculate_tp_fp", "no-results:not-marked", "without results the marking loop is entered", fi=fi)
+        g0 = cd.get("eq:self.num_ground_truth==0")
+        ctx.require(g0 is not None, "Ap._calculate_tp_fp: the `no ground truth` test of the no-results branch was not recognised")
+        rv = S(p.retval)
+        if g0:
+            rows.add("none")
+            ctx.check(rv == "([],[])", "C04-marking", "Ap._calculate_tp_fp", "no-results:no-gt", f"returns `{rv[:60]}`; expected ([], [])", fi=fi)
+        else:
+            rows.add("gt-only")
+            d = dict((k, S(v)) for k, v in asg)
+            ctx.check(d.get("tp_list") in ("[0.0]*self.num_ground_truth", "[0]*self.num_ground_truth") and d.get("fp_list", "").startswith("np.arange(1,self.num_ground_truth+1") and rv == "(tp_list,fp_list)",
+                      "C04-marking", "Ap._calculate_tp_fp", "no-results:gt", f"without results but with ground truth the lists are tp={d.get('tp_list')}, fp={d.get('fp_list', '')[:50]}; expected all-zero TP and FP = 1..GT (precision 0, AP 0)", fi=fi)
+    ctx.require(rows == {"results", "none", "gt-only"}, f"Ap._calculate_tp_fp: rows {sorted(rows)}")
     # cumulative sums, in that order, returned as (tp, fp)
     main = [p for p in paths if any(e.kind == "loop" for e in p.effects)]
     for p in main:
@@ -371,6 +433,26 @@ def rule_map(ctx: Ctx) -> None:
         ctx.check(ok, "C04-map", "Map.__init__", f"mean:{attr}", f"{attr} = `{(v0 or sorted(txts)[0])[:140]}`; it must be the mean of the finite APs of {lst} (sum(valid) / len(valid), valid = ap != inf)", fi=fi,
                   expected="sum(valid) / len(valid) with valid = [a.ap for a in list if a.ap != inf]", found=(v0 or sorted(txts)[0])[:200])
         ctx.check("float('inf')" in txts, "C04-map", "Map.__init__", f"undefined:{attr}", f"{attr} has no `inf` value for the case that no label has a finite AP", fi=fi)
+        # ... and which of the two applies: the mean exactly when at least one label has a finite AP
+        for pp in paths:
+            for e in pp.effects:
+                if not (e.kind == "store" and strip_v(e.recv) == attr):
+                    continue
+                some = None
+                for k, v in pp.facts.items():
+                    kk = S(k)
+                    if lst in kk and (kk.startswith("cmp:0<len([") or kk.startswith("truthy:[")):
+                        some = v
+                    elif lst in kk and kk.startswith("eq:len([") and kk.endswith("==0"):
+                        some = not v
+                    elif lst in kk and kk.startswith("cmp:"):
+                        some = "other:" + kk[4:60]
+                t = S(e.value)
+                if some is True or some is False:
+                    ctx.check(t.startswith("sum(") == some and (t == "float('inf')") == (not some), "C04-map", "Map.__init__", f"mean-iff-finite:{attr}:{int(some)}",
+                              f"with {'at least one' if some else 'no'} finite AP {attr} = `{t[:60]}`; expected {'the mean' if some else 'inf (undefined)'}", fi=fi)
+                else:
+                    ctx.check(False, "C04-map", "Map.__init__", f"mean-guard:{attr}", f"{attr} is chosen by `{some}`; the guard must be `0 < len(valid)` (mean iff at least one finite AP)", fi=fi)
 
 
 def _divide_table(ctx: Ctx, fname: str) -> Dict[Tuple, str]:
@@ -381,6 +463,14 @@ def _divide_table(ctx: Ctx, fname: str) -> Dict[Tuple, str]:
         tl_none = p.facts.get("none:target_labels")
         lps = [e for e in p.effects if e.kind == "loop"]
         ctx.require(len(lps) == 1 and S(lps[0].text) == "objects", f"{fname}: loop over objects not recognised")
+        ctx.require(tl_none is not None, f"{fname}: the `target_labels is not None` test was not recognised")
+        init = next((S(e.value) for e in p.effects if e.kind == "assign" and e.recv == "ret"), S(lps[0].pre.get("ret")) if lps[0].pre.get("ret") is not None else None)
+        zero = "0" if fname.endswith("_to_num") else "[]"
+        want_init = "{}" if tl_none else f"{{label:{zero}forlabelintarget_labels}}"
+        ctx.check(init == want_init or (not tl_none and init is not None and re.match(r"^\{(\w+):" + re.escape(zero) + r"for\1intarget_labels\}$", init) is not None) or (tl_none and init == "dict()"),
+                  "C04-divide-table", fname, f"init:targets_none={bool(tl_none)}",
+                  f"{fname}: the result starts as `{init}`; expected {'an empty dict' if tl_none else 'one empty bucket (' + zero + ') per target label, so that labels without objects are still scored'}", fi=fi,
+                  expected=want_init, found=str(init))
         o = U(lps[0].node.target)
         for bp in lps[0].body:
             f = {S(k): v for k, v in bp.facts.items()}
@@ -403,6 +493,25 @@ def _divide_table(ctx: Ctx, fname: str) -> Dict[Tuple, str]:
                     t = S(e.recv)[4:-1]
                 if t is not None:
                     tgt = {est_l: "est-label", obj_l: "own-label", gt_l: "gt-label"}.get(t, "other:" + t)
+            # how the object is filed: a new bucket starts with exactly this object / count 1, an existing one gains exactly this object / +1
+            if tgt is not None:
+                lab_t = {"est-label": est_l, "own-label": obj_l, "gt-label": gt_l}.get(tgt)
+                known = next((v for k, v in f.items() if lab_t and k in (f"in:{lab_t}inret.keys()", f"in:{lab_t}inret")), None)
+                effs = [(e.kind, e.name or None, S(e.value) if e.value is not None else (S(e.args[0]) if e.args else "")) for e in bp.effects
+                        if (e.kind in ("store", "aug") and S(strip_v(e.recv)).startswith("ret[")) or (e.kind == "call" and e.name == "append" and S(e.recv).startswith("ret["))]
+                is_num = fname.endswith("_to_num")
+                if known is False:
+                    want = [("store", None, "1")] if is_num else [("store", None, f"[{o}]")]
+                elif known is True:
+                    want = [("aug", "Add", "1")] if is_num else [("call", "append", o)]
+                else:
+                    want = None
+                if want is not None:
+                    ctx.check(effs == want, "C04-divide-table", fname, f"files:{'new' if known is False else 'existing'}:{tgt}",
+                              f"{fname}: an object whose bucket {'does not exist yet' if known is False else 'exists'} is filed by {effs}; expected {want} (each object counted exactly once)", fi=fi,
+                              expected=str(want), found=str(effs))
+                else:
+                    ctx.check(False, "C04-divide-table", fname, f"files:unguarded:{tgt}", f"{fname}: the object is filed by {effs} without testing whether its bucket already exists", fi=fi)
             val = tgt if tgt is not None else ("skip" if bp.exit == ("continue",) else "none")
             if key in out and out[key] != val:
                 val = out[key] + "|" + val
@@ -438,6 +547,8 @@ def rule_divide(ctx: Ctx) -> None:
 
 
 def run(ctx: Ctx) -> None:
+    from rules import generic as _G
+    ctx.run(_G.rule_arity, ("perception_eval.evaluation.metrics.detection", "perception_eval.evaluation.metrics.metrics", "perception_eval.evaluation.metrics.metrics_score_config"), "R-ARITY", 10)
     ctx.run(rule_ranking)
     ctx.run(rule_marking)
     ctx.run(rule_formulas)
